@@ -182,7 +182,7 @@ def run(ctx):
         for combo, text in gen_text.class_texts(maxlen):
             compare(ctx, drv, text, 'stringio' if n % 3 else 'file', 'classes', {'classes': combo})
             n += 1
-        ctx.tables[f'line-class sequences (len<={maxlen}, 10 classes, +-final newline)'] = {'size': n, 'exhaustive': True, 'ok': True}
+        ctx.tables[f'line-class sequences (len<={maxlen}, 12 classes, +-final newline)'] = {'size': n, 'exhaustive': True, 'ok': True}
         # longer sampled class sequences
         keys = list(gen_text.LINE_CLASSES)
         for i in range(3000 if ctx.tier == 'quick' else 150000):
@@ -190,7 +190,7 @@ def run(ctx):
             # bias towards the framework order
             combo = [ctx.rng.choice(keys) for _ in range(k)]
             if ctx.rng.random() < 0.6:
-                body = [ctx.rng.choice('VDBQJ') for _ in range(ctx.rng.randint(0, 4))]
+                body = [ctx.rng.choice('VDBQJWX') for _ in range(ctx.rng.randint(0, 4))]
                 sig = [ctx.rng.choice('HBAJ') for _ in range(ctx.rng.randint(0, 2))]
                 combo = ([ctx.rng.choice('BBV') for _ in range(ctx.rng.randint(0, 2))] + ['M'] +
                          [ctx.rng.choice('HHJ') for _ in range(ctx.rng.randint(0, 2))] + ['B'] + body + ['S'] + sig + ['E'] +
